@@ -1,6 +1,6 @@
 SPECIFICATION Spec
 CONSTANTS
-  MaxLen = 7
+  MaxLen = 6
   Widths = {1, 2, 3, 4, 6, 1000000}
   Alphabet = {1, 2, 3, 4, 5, 6, 7, 8}
   EmitOn = TRUE
